@@ -1,30 +1,37 @@
-// Kind N harnesses on shape T1(n <= N): one root border node with symbolic contents; ONE real API call.
+// Kind N harnesses on shapes T0 (null root), T0d (empty deleted root) and T1(n) (one root border with n entries,
+// n CONCRETE per entry point, contents symbolic): ONE real API call from an arbitrary valid state of the shape, then
+// the post-state is compared with the reference map through a symbolic probe key and the representation invariant.
 #include "builder.h"
 using namespace yakushima;
 using namespace ykb;
-#ifndef NN
-#define NN 3
-#endif
-#ifndef SYM_SLOTS
-#define SYM_SLOTS true
-#endif
 
-template<int FIXN> static inline void H_t1_get_body() {
-    border_state<NN> st;
-    build_border<NN>(st, true, false, SYM_SLOTS, FIXN);
+namespace {
+struct keys2 {
+    sym_key k, q;
+    std::uint64_t ks, qs;
+    unsigned kl, ql;
+};
+template<unsigned KMAX>
+inline void make_keys(keys2& x) {
+    make_key<KMAX>(x.k);
+    make_key<KMAX>(x.q);
+    key_layer(x.k.b, x.k.len, 0, x.ks, x.kl);
+    key_layer(x.q.b, x.q.len, 0, x.qs, x.ql);
+}
+
+// ---------------------------------------------------------------------------------------------- get
+template<unsigned N, unsigned MAP>
+inline void t1_get() {
+    bstate<N> st;
+    build_border<N>(st, true, MAP);
     tree_instance ti;
     ti.store_root_ptr(st.node);
-    sym_key k;
-    make_key<8>(k);
-    std::uint64_t qs;
-    unsigned ql;
-    key_layer(k.b, k.len, 0, qs, ql);
-    int found = -1;
-    for (unsigned i = 0; i < NN; ++i)
-        if (i < st.n && st.e[i].slice == qs && st.e[i].len == ql) found = (int) i;
+    keys2 x;
+    make_keys<8>(x);
+    int found = ref_find(st, x.ks, x.kl);
     std::pair<char*, std::size_t> out{nullptr, 0};
     std::pair<node_version64_body, node_version64*> cv{};
-    status rc = get<char>(&ti, std::string_view(reinterpret_cast<char*>(k.b), k.len), out, &cv);
+    status rc = get<char>(&ti, sv(x.k), out, &cv);
     if (found >= 0) {
         YK_ASSERT(rc == status::OK);
         YK_ASSERT(out.second == 1);
@@ -33,47 +40,39 @@ template<int FIXN> static inline void H_t1_get_body() {
         YK_REACH();
     } else {
         YK_ASSERT(rc == status::WARN_NOT_EXIST);
-        YK_ASSERT(cv.second == st.node->get_version_ptr());
-        YK_ASSERT(cv.first == st.node->get_stable_version());
+        YK_ASSERT(cv.second == st.node->get_version_ptr()); // C05: a miss reports the node it checked ...
+        YK_ASSERT(cv.first == st.node->get_stable_version()); // ... with its current stable version
         YK_REACH();
     }
-    YK_ASSERT(ri_border(st.node, true));
+    YK_ASSERT(ri_border(st.node, true, nullptr));
 }
 
-// remove on T1: status, RI(post), every other key untouched (probe), the value is RETIRED (not freed) with the
-// caller's epoch, an emptied root stays as deleted root (T0d)
-template<int FIXN> static inline void H_t1_remove_body() {
-    border_state<NN> st;
-    build_border<NN>(st, true, false, SYM_SLOTS, FIXN);
+// ---------------------------------------------------------------------------------------------- remove
+template<unsigned N, unsigned MAP>
+inline void t1_remove() {
+    bstate<N> st;
+    build_border<N>(st, true, MAP);
     tree_instance ti;
     ti.store_root_ptr(st.node);
-    thread_info tinfo;
-    Epoch ep = yk_nondet_u64();
-    yk_assume(ep != 0);
-    tinfo.set_begin_epoch(ep);
-    sym_key k, q;
-    make_key<8>(k);
-    make_key<8>(q);
-    std::uint64_t ks, qs;
-    unsigned kl, ql;
-    key_layer(k.b, k.len, 0, ks, kl);
-    key_layer(q.b, q.len, 0, qs, ql);
-    int found = ref_find(st, ks, kl);
-    int qfound = ref_find(st, qs, ql);
+    session s;
+    open_session(s);
+    keys2 x;
+    make_keys<8>(x);
+    int found = ref_find(st, x.ks, x.kl);
+    int qfound = ref_find(st, x.qs, x.ql);
     std::int64_t live0 = yk_live_allocs();
     yk_event_reset();
-    status rc = remove(&tinfo, &ti, std::string_view(reinterpret_cast<char*>(k.b), k.len));
+    status rc = remove(s.tok(), &ti, sv(x.k));
     YK_ASSERT(rc == (found >= 0 ? status::OK : status::OK_NOT_FOUND));
-    YK_ASSERT(yk_live_allocs() == live0); // nothing is released (or allocated) by remove itself
-    YK_ASSERT(ti.load_root_ptr() == st.node);
-    YK_ASSERT(ri_border(st.node, true));
-    YK_ASSERT(st.node->get_permutation_cnk() == (found >= 0 ? st.n - 1 : st.n));
+    YK_ASSERT(yk_live_allocs() == live0); // remove itself releases (and allocates) nothing: C07
+    YK_ASSERT(ti.load_root_ptr() == st.node); // an emptied root stays, as deleted root
+    unsigned cnt = 99;
+    YK_ASSERT(ri_border(st.node, true, nullptr, &cnt));
+    YK_ASSERT(cnt == (found >= 0 ? N - 1 : N));
     if (found >= 0) {
         auto [blk, blk_len, blk_al] = value::get_gc_info(st.e[found].val);
-        YK_ASSERT(yk_event_count() == 1);
-        YK_ASSERT(yk_event_kind(0) == 0 && yk_event_ptr(0) == blk && yk_event_tag(0) == ep);
+        YK_ASSERT(retired_once(blk, s.ep));
         YK_ASSERT(!value::need_delete(st.e[found].val));
-        if (FIXN < 0 && st.n == 1) YK_REACH();
         if (found == 0) YK_REACH();
         YK_REACH();
     } else {
@@ -81,10 +80,9 @@ template<int FIXN> static inline void H_t1_remove_body() {
         YK_ASSERT(raw_version(st.node->get_version()) == raw_version(mk_version(true, true, false, YK_VINS0, YK_VSPLIT0)));
         YK_REACH();
     }
-    // probe: the real get on the post-state agrees with the reference map
     std::pair<char*, std::size_t> out{nullptr, 0};
-    status g = get<char>(&ti, std::string_view(reinterpret_cast<char*>(q.b), q.len), out);
-    bool expect = qfound >= 0 && !(qs == ks && ql == kl);
+    status g = get<char>(&ti, sv(x.q), out);
+    bool expect = qfound >= 0 && !(x.qs == x.ks && x.ql == x.kl);
     YK_ASSERT(g == (expect ? status::OK : status::WARN_NOT_EXIST));
     if (expect) {
         YK_ASSERT(out.first == static_cast<char*>(value::get_body(st.e[qfound].val)) && out.second == 1);
@@ -92,25 +90,19 @@ template<int FIXN> static inline void H_t1_remove_body() {
     }
 }
 
-// put on T1 (no split: n < 15): upsert / unique-insert of a key of the root layer
-template<int FIXN> static inline void H_t1_put_body() {
-    border_state<NN> st;
-    build_border<NN>(st, true, false, SYM_SLOTS, FIXN);
+// ---------------------------------------------------------------------------------------------- put (no split, N < 15)
+template<unsigned N, unsigned MAP>
+inline void t1_put() {
+    bstate<N> st;
+    build_border<N>(st, true, MAP);
     tree_instance ti;
     ti.store_root_ptr(st.node);
-    thread_info tinfo;
-    Epoch ep = yk_nondet_u64();
-    yk_assume(ep != 0);
-    tinfo.set_begin_epoch(ep);
-    sym_key k, q;
-    make_key<8>(k);
-    make_key<8>(q);
-    std::uint64_t ks, qs;
-    unsigned kl, ql;
-    key_layer(k.b, k.len, 0, ks, kl);
-    key_layer(q.b, q.len, 0, qs, ql);
-    int found = ref_find(st, ks, kl);
-    int qfound = ref_find(st, qs, ql);
+    session s;
+    open_session(s);
+    keys2 x;
+    make_keys<8>(x);
+    int found = ref_find(st, x.ks, x.kl);
+    int qfound = ref_find(st, x.qs, x.ql);
     bool unique = yk_nondet_bool();
     char nv = (char) yk_nondet_u8();
     char* created = nullptr;
@@ -118,38 +110,36 @@ template<int FIXN> static inline void H_t1_put_body() {
     node_version64_body v0 = st.node->get_stable_version();
     std::int64_t live0 = yk_live_allocs();
     yk_event_reset();
-    status rc = put<char>(&tinfo, &ti, std::string_view(reinterpret_cast<char*>(k.b), k.len), &nv, unique, 1, &created,
-                          static_cast<value_align_type>(1), &ini);
+    status rc = put<char>(s.tok(), &ti, sv(x.k), &nv, unique, 1, &created, static_cast<value_align_type>(1), &ini);
     node_version64_body v1 = st.node->get_stable_version();
     YK_ASSERT(ti.load_root_ptr() == st.node);
-    YK_ASSERT(ri_border(st.node, true));
+    unsigned cnt = 99;
+    YK_ASSERT(ri_border(st.node, true, nullptr, &cnt));
     if (found >= 0 && unique) {
         YK_ASSERT(rc == status::WARN_UNIQUE_RESTRICTION);
-        YK_ASSERT(yk_live_allocs() == live0 && yk_event_count() == 0);
-        YK_ASSERT(v0 == v1);
+        YK_ASSERT(yk_live_allocs() == live0 && yk_event_count() == 0); // nothing allocated speculatively is left behind: C11
+        YK_ASSERT(v0 == v1 && cnt == N);
         YK_REACH();
     } else if (found >= 0) {
-        YK_ASSERT(rc == status::OK);
+        YK_ASSERT(rc == status::OK && cnt == N);
         YK_ASSERT(yk_live_allocs() == live0 + 1); // new value allocated, old one retired (not freed)
         auto [blk, blk_len, blk_al] = value::get_gc_info(st.e[found].val);
-        YK_ASSERT(yk_event_count() == 1 && yk_event_kind(0) == 0 && yk_event_ptr(0) == blk && yk_event_tag(0) == ep);
-        YK_ASSERT(v0 == v1);                        // an overwrite changes no node version (C12)
+        YK_ASSERT(retired_once(blk, s.ep));
+        YK_ASSERT(v0 == v1);                  // an overwrite changes no node version: C12
         YK_ASSERT(ini.created_nvp == nullptr);
         YK_ASSERT(created != nullptr && *created == nv);
         YK_REACH();
     } else {
-        YK_ASSERT(rc == status::OK);
+        YK_ASSERT(rc == status::OK && cnt == N + 1);
         YK_ASSERT(yk_live_allocs() == live0 + 1 && yk_event_count() == 0);
-        YK_ASSERT(st.node->get_permutation_cnk() == st.n + 1);
         YK_ASSERT(ini.modified_nvp == st.node->get_version_ptr() && ini.created_nvp == nullptr); // C12
         YK_ASSERT(v0 != v1 && v1.get_vinsert_delete() == ((v0.get_vinsert_delete() + 1U) & M29) && v1.get_vsplit() == v0.get_vsplit());
         YK_ASSERT(created != nullptr && *created == nv);
-        if (FIXN < 0 && st.n == NN) YK_REACH();
         YK_REACH();
     }
     std::pair<char*, std::size_t> out{nullptr, 0};
-    status g = get<char>(&ti, std::string_view(reinterpret_cast<char*>(q.b), q.len), out);
-    bool same = (qs == ks && ql == kl);
+    status g = get<char>(&ti, sv(x.q), out);
+    bool same = (x.qs == x.ks && x.ql == x.kl);
     if (same && !(found >= 0 && unique)) {
         YK_ASSERT(g == status::OK && out.first == created && out.second == 1 && *out.first == nv);
         YK_REACH();
@@ -163,8 +153,122 @@ template<int FIXN> static inline void H_t1_put_body() {
     }
 }
 
-// entry points: one per concrete entry count (and one with the count symbolic for the thorough tier)
-#define YK_INST(name, sfx, n) YK_HARNESS name##sfx() { name##_body<n>(); }
-YK_INST(H_t1_get, _n1, 1) YK_INST(H_t1_get, _n2, 2) YK_INST(H_t1_get, _n3, 3) YK_INST(H_t1_get, _sym, -1)
-YK_INST(H_t1_remove, _n1, 1) YK_INST(H_t1_remove, _n2, 2) YK_INST(H_t1_remove, _n3, 3) YK_INST(H_t1_remove, _sym, -1)
-YK_INST(H_t1_put, _n1, 1) YK_INST(H_t1_put, _n2, 2) YK_INST(H_t1_put, _n3, 3) YK_INST(H_t1_put, _sym, -1)
+// ---------------------------------------------------------------------------------------------- T0 / T0d
+// first insert into a storage without root (T0) or with the empty deleted root that removes leave behind (T0d):
+// "remove everything and re-insert behaves like fresh"
+template<bool DELETED_ROOT>
+inline void t0_put() {
+    tree_instance ti;
+    border_node* old_root = nullptr;
+    if (DELETED_ROOT) {
+        bstate<0> st;
+        build_border<0>(st, true, 0);
+        old_root = st.node;
+        ti.store_root_ptr(old_root);
+    }
+    session s;
+    open_session(s);
+    keys2 x;
+    make_keys<8>(x);
+    bool unique = yk_nondet_bool();
+    char nv = (char) yk_nondet_u8();
+    char* created = nullptr;
+    inserted_node_info ini{nullptr, nullptr};
+    std::pair<char*, std::size_t> out{nullptr, 0};
+    YK_ASSERT(get<char>(&ti, sv(x.q), out) == status::WARN_NOT_EXIST); // empty before
+    YK_ASSERT(remove(s.tok(), &ti, sv(x.q)) == (DELETED_ROOT ? status::OK_NOT_FOUND : status::OK_ROOT_IS_NULL));
+    status rc = put<char>(s.tok(), &ti, sv(x.k), &nv, unique, 1, &created, static_cast<value_align_type>(1), &ini);
+    YK_ASSERT(rc == status::OK);
+    base_node* root = ti.load_root_ptr();
+    YK_ASSERT(root != nullptr && root->get_version_border());
+    if (DELETED_ROOT) YK_ASSERT(root == old_root);
+    unsigned cnt = 99;
+    YK_ASSERT(ri_border(static_cast<border_node*>(root), true, nullptr, &cnt) && cnt == 1);
+    YK_ASSERT(ini.modified_nvp == root->get_version_ptr() && ini.created_nvp == nullptr);
+    YK_ASSERT(created != nullptr && *created == nv);
+    status g = get<char>(&ti, sv(x.q), out);
+    if (x.qs == x.ks && x.ql == x.kl) {
+        YK_ASSERT(g == status::OK && out.first == created && out.second == 1);
+        YK_REACH();
+    } else {
+        YK_ASSERT(g == status::WARN_NOT_EXIST);
+        YK_REACH();
+    }
+}
+
+// ---------------------------------------------------------------------------------------------- T1(15): border split
+// put of an absent key into a FULL root border: the node splits, a new interior root appears.  Map semantics through
+// the probe, structure through RI, C12: exactly the old border (modified) and the new border (created) change version.
+template<unsigned MAP>
+inline void t1_put_split() {
+    constexpr unsigned N = 15;
+    bstate<N> st;
+    build_border<N>(st, true, MAP);
+    tree_instance ti;
+    ti.store_root_ptr(st.node);
+    session s;
+    open_session(s);
+    keys2 x;
+    make_keys<8>(x);
+    int found = ref_find(st, x.ks, x.kl);
+    int qfound = ref_find(st, x.qs, x.ql);
+    yk_assume(found < 0); // the overwrite / unique cases do not depend on fullness (covered at n <= 3)
+    char nv = (char) yk_nondet_u8();
+    char* created = nullptr;
+    inserted_node_info ini{nullptr, nullptr};
+    node_version64_body v0 = st.node->get_stable_version();
+    status rc = put<char>(s.tok(), &ti, sv(x.k), &nv, false, 1, &created, static_cast<value_align_type>(1), &ini);
+    YK_ASSERT(rc == status::OK);
+    base_node* root = ti.load_root_ptr();
+    YK_ASSERT(root != nullptr && root != st.node && !root->get_version_border());
+    auto* in = static_cast<interior_node*>(root);
+    YK_ASSERT(ri_interior_of_borders(in, true, nullptr, 2));
+    YK_ASSERT(in->get_child_at(0) == st.node);
+    auto* nb = static_cast<border_node*>(in->get_child_at(1));
+    YK_ASSERT(st.node->get_permutation_cnk() + nb->get_permutation_cnk() == 16);
+    // C12
+    YK_ASSERT(ini.modified_nvp == st.node->get_version_ptr() && ini.created_nvp == nb->get_version_ptr());
+    node_version64_body v1 = st.node->get_stable_version();
+    YK_ASSERT(v1.get_vsplit() == ((v0.get_vsplit() + 1U) & M29)); // the split is visible in the old node's version
+    YK_ASSERT(created != nullptr && *created == nv);
+    // probe
+    std::pair<char*, std::size_t> out{nullptr, 0};
+    status g = get<char>(&ti, sv(x.q), out);
+    if (x.qs == x.ks && x.ql == x.kl) {
+        YK_ASSERT(g == status::OK && out.first == created && out.second == 1);
+        YK_REACH();
+    } else {
+        YK_ASSERT(g == (qfound >= 0 ? status::OK : status::WARN_NOT_EXIST));
+        if (qfound >= 0) {
+            YK_ASSERT(out.first == static_cast<char*>(value::get_body(st.e[qfound].val)) && out.second == 1);
+            YK_REACH();
+        }
+    }
+    // the new key may land on either side, in particular exactly at the split point (rank 8)
+    bool left = false;
+    for (unsigned i = 0; i < 15; ++i) {
+        unsigned sl = (st.node->get_permutation().get_body() >> (4 * (i + 1))) & 15U;
+        if (i < st.node->get_permutation_cnk() && st.node->get_key_slice_at(sl) == x.ks && st.node->get_key_length_at(sl) == x.kl) left = true;
+    }
+    if (left) YK_REACH();
+    if (!left) YK_REACH();
+    if (ref_lt(st.e[7].slice, st.e[7].len, x.ks, x.kl) && ref_lt(x.ks, x.kl, st.e[8].slice, st.e[8].len) && st.e[8].slice == x.ks) YK_REACH();
+}
+} // namespace
+
+#define YK_ENTRY(name, call) YK_HARNESS name() { call; }
+YK_ENTRY(H_t1_get_n1, (t1_get<1, 0>()))
+YK_ENTRY(H_t1_get_n2, (t1_get<2, 1>()))
+YK_ENTRY(H_t1_get_n3, (t1_get<3, 0>()))
+YK_ENTRY(H_t1_get_n4s, (t1_get<4, 1>()))
+YK_ENTRY(H_t1_remove_n1, (t1_remove<1, 1>()))
+YK_ENTRY(H_t1_remove_n2, (t1_remove<2, 0>()))
+YK_ENTRY(H_t1_remove_n3, (t1_remove<3, 1>()))
+YK_ENTRY(H_t1_put_n1, (t1_put<1, 0>()))
+YK_ENTRY(H_t1_put_n2, (t1_put<2, 1>()))
+YK_ENTRY(H_t1_put_n3, (t1_put<3, 0>()))
+YK_ENTRY(H_t1_put_n14, (t1_put<14, 1>()))
+YK_ENTRY(H_t0_put, (t0_put<false>()))
+YK_ENTRY(H_t0d_put, (t0_put<true>()))
+YK_ENTRY(H_t1_put_split, (t1_put_split<0>()))
+YK_ENTRY(H_t1_put_split_scr, (t1_put_split<1>()))
